@@ -244,6 +244,12 @@ func NewConn(c net.Conn, opts ConnOpts) *Conn {
 	nc.current.SetMaxWindowSize(1 << 20)
 	nc.current.SetPush(false)
 
+	// What the encoder starts out with. Left at zero, a later
+	// SETTINGS_HEADER_TABLE_SIZE of 0 looks like no change at all and the
+	// encoder goes on indexing into a table the server no longer has.
+	nc.encTableSize = defaultHeaderTableSize
+	nc.encTableSizeSeen = defaultHeaderTableSize
+
 	return nc
 }
 
